@@ -251,21 +251,34 @@ where
     T: Service<Publish, Response = Either<(), Publish>, Error = E>,
     C: Service<ProtocolMessage, Response = ProtocolMessageAck, Error = DispatcherError<E>>,
 {
+    let qos2 = pkt.qos() == crate::types::QoS::ExactlyOnce;
     let res = ctx.call(svc, pkt).await.map_err(DispatcherError::Service)?;
     match res {
         Either::Left(()) => {
             log::trace!("Publish result for packet {packet_id:?} is ready");
 
             if let Some(packet_id) = packet_id {
-                inner.inflight.borrow_mut().remove(&packet_id);
-                Ok(Some(Encoded::Packet(Packet::PublishAck { packet_id })))
+                if qos2 {
+                    // packet id is in use until PUBREL is received
+                    Ok(Some(Encoded::Packet(Packet::PublishReceived { packet_id })))
+                } else {
+                    inner.inflight.borrow_mut().remove(&packet_id);
+                    Ok(Some(Encoded::Packet(Packet::PublishAck { packet_id })))
+                }
             } else {
                 Ok(None)
             }
         }
         Either::Right(pkt) => {
             let (pkt, payload, size) = pkt.into_inner();
-            inner.control(ProtocolMessage::publish(pkt, payload, size)).await
+            let res = inner.control(ProtocolMessage::publish(pkt, payload, size)).await?;
+            if qos2 && let Some(Encoded::Packet(Packet::PublishAck { packet_id })) = res {
+                // QoS2 message is acknowledged with PUBREC, packet id is in use until PUBREL
+                inner.inflight.borrow_mut().insert(packet_id);
+                Ok(Some(Encoded::Packet(Packet::PublishReceived { packet_id })))
+            } else {
+                Ok(res)
+            }
         }
     }
 }
